@@ -204,6 +204,14 @@ def gen_map(rng, scaffolds, bpt, edits=None, tagging=True, rich_tags=False):
     groups = [{"pieces": ps} for ps in pieces_by_sc if ps]
     if not groups:
         return None
+    if rng.random() < 0.05:
+        # the map was drawn from a longer, earlier version of one scaffold: a few dozen
+        # pieces lie past its present end (each is reported: "No overlaps found for ...")
+        sc = rng.choice(scaffolds)
+        L = scaffold_length(sc)
+        step = max(2, int(2 * bpt))
+        junk = [[sc["name"], L + 1 + k * step, L + (k + 1) * step, 1, []] for k in range(rng.randint(26, 40))]
+        groups.append({"pieces": junk})
     do_edit = rng.random() < 0.75 if edits is None else edits
     if do_edit:
         for _ in range(rng.choice([1, 1, 2, 3, 5])):
